@@ -5,6 +5,6 @@ MCShapes == {<<5>>, <<6>>, <<3, 3>>, <<3, 4>>, <<5, 3>>, <<3, 2, 4>>, <<3, 3, 3>
 MCShapesQuick == {<<5>>, <<3, 3>>, <<4, 3>>, <<3, 2, 3>>, <<2, 3, 2, 2>>}
 MCStart == {Pattern(sh, s) : sh \in MCShapes, s \in 0..3}
 MCStartQuick == {Pattern(sh, s) : sh \in MCShapesQuick, s \in 0..1}
-MCScale == {QMk(1, 3), QI(2), QI(1000)}
+MCScale == {QMk(1, 3), QI(2), QI(1000), QMk(1, 10000)}   \* the last one brings every total below one
 MCMono == {<<QI(0), QI(5)>>, <<QI(9), QMk(1, 2)>>}
 =============================================================================
